@@ -58,8 +58,8 @@ CHECKS = {
     "C03": dict(
         verus=[dict(unit="framing"), dict(unit="drd_decode")],
         kani=[dict(crate="nexrad-decode", files=["drd.rs", "w03.rs"], role="witness", tag="-witness", harnesses=[
-            dict(name="w03_two_frames", bounded="2 frames, symbolic type codes", what="two whole frames -> two messages in order, opaque placeholders for types without decoder, reader at the end"),
-            dict(name="w03_truncation", bounded="1 frame, cuts at 0/1/2403 body bytes; tails of 1/27 bytes", what="cut inside a body is an error; trailing fragment < header ignored"),
+            dict(name="w03_two_frames", bounded="2 frames of the opaque types 3 and 15 in either order", what="two whole frames -> two messages in order, opaque placeholders for types without decoder, reader at the end"),
+            dict(name="w03_truncation", bounded="1 frame of type 3, cuts at 0/1/2403 body bytes; tails of 1/27 bytes", what="cut inside a body is an error; trailing fragment < header ignored"),
         ])],
         trusted_base=STD_TRUST + [
             "reader model: Read::read_exact consumes exactly |buf| bytes or fails when fewer remain (std::io contract for &[u8]/Cursor)",
@@ -344,16 +344,23 @@ CHECKS = {
                     "(unit search).",
     ),
     "C16": dict(
-        verus=[dict(unit="chunk_id")],
+        verus=[dict(unit="chunk_id"), dict(unit="archive_id")],
         trusted_base=STD_TRUST + [
-            "std fmt/parse/slicing on names are ASSUMED (uninterpreted name_of / seq_of / prefix_of with the round-trip axiom)",
+            "std fmt/parse/slicing on chunk names are ASSUMED (uninterpreted name_of / seq_of / prefix_of with the round-trip axiom)",
+            "str::get(range) never panics and, on an ASCII string, returns the characters at those offsets (assume_specification + axiom_get_ascii); "
+            "direct str indexing keeps vstd's own precondition, which an arbitrary string cannot meet",
+            "chrono NaiveDate/NaiveTime::parse_from_str are total functions of (text, format) (uninterpreted; what they parse is not decided)",
         ],
-        not_decided=["archive file-name parsing (site / date-time recovery) and totality of the string parsers on arbitrary "
-                     "Unicode: rest on std::str and chrono parsers; neither engine reasons about them (Verus has no byte-level "
-                     "str model, CBMC does not finish on symbolic strings)"],
+        not_decided=["what chrono parses from the eight date and six time characters (calendar validity) and the chunk-name string parsers "
+                     "(sequence / type from the last characters) on arbitrary Unicode: they rest on std::str and chrono; Verus has no byte-level "
+                     "str model and CBMC does not finish on symbolic strings",
+                     "archive::list_files key splitting (`split('/').last()`)"],
         explanation="next_chunk / with_sequence / VolumeIndex extracted verbatim (format! through a shim whose precondition pins the "
                     "format string): successor arithmetic, type-letter choice, site/volume/prefix preservation, never volume 0 or "
-                    "1000; lemma: successor is +1 modulo 54945 on the 999 x 55 grid, hence one cycle visiting every position once.",
+                    "1000; lemma: successor is +1 modulo 54945 on the 999 x 55 grid, hence one cycle visiting every position once.  "
+                    "archive::Identifier::{new,name,site,date_time} extracted verbatim: site == bytes 0..4, date_time == the two "
+                    "parsers applied to bytes 4..12 and 13..19, none when a slice does not exist or does not parse, no panic for any "
+                    "string; lemma: for an ASCII name of at least 19 characters these are exactly characters 0..4, 4..12 and 13..19.",
     ),
     "C19": dict(
         verus=[dict(unit="elevation_from_chunk"), dict(unit="estimate")],
